@@ -4,7 +4,7 @@
 # against it (VERIF_REPO), prints their outcome, and removes the scratch copy.
 P="$1"; shift
 D=$(mktemp -d /tmp/mut.XXXXXX)
-cp -r /repo/src "$D/src"
+cp -r /repo/src "$D/src"; cp /repo/Cargo.toml /repo/Cargo.lock "$D/"
 (cd "$D" && patch -s -p1 < "$P") || { echo "patch failed"; rm -rf "$D"; exit 3; }
 cd "$(dirname "$0")/.."
 for c in "$@"; do
